@@ -106,7 +106,9 @@ func (k *KVStore) Compaction() (bool, error) {
 				if len(k.tables) == 1 {
 					break
 				}
-				delete(k.tablesByCoefficient, t.Coefficient())
+				// The table was removed from tablesByCoefficient when it was recycled and
+				// Reset has cleared its coefficient: deleting by that coefficient (0) here
+				// would unregister the live table that owns coefficient 0.
 				k.tables = append(k.tables[:i], k.tables[i+1:]...)
 				i--
 			}
